@@ -73,6 +73,18 @@ thread_local! {
     static REFUSE_PROXY: std::cell::Cell<bool> = const { std::cell::Cell::new(false) };
 }
 
+/// While the returned guard lives, the router refuses (ConnectionRefused) every connection that is meant for a proxy.
+pub fn refuse_proxy_connections(on: bool) -> impl Drop {
+    struct G;
+    impl Drop for G {
+        fn drop(&mut self) {
+            REFUSE_PROXY.with(|c| c.set(false));
+        }
+    }
+    REFUSE_PROXY.with(|c| c.set(on));
+    G
+}
+
 pub const METHODS: &[&str] = &["GET", "GET", "OPTIONS", "HEAD", "POST", "DELETE", "TRACE", "PUT"];
 
 pub struct C08;
